@@ -1,11 +1,12 @@
 import TflModel.Model.Wire
 import TflModel.Driver.Linear
+import TflModel.Driver.Lattice
 /-! Line-protocol driver: one op per input line, one reply line per op.
 Imports only Mathlib-free `Model/*` and `Driver/*` modules, so it links as a native executable. -/
 open Tfl Tfl.Wire
 
 def handlers : List (String × Handler) :=
-  Tfl.Driver.Linear.handlers
+  Tfl.Driver.Linear.handlers ++ Tfl.Driver.Lattice.handlers
 
 def handleLine (line : String) : String :=
   match (line.trimAscii.toString).splitOn " " with
